@@ -38,25 +38,54 @@ def axis_points(lo, df, hi, quarters=False):
 
 
 def axis_restrictions(lo, df, hi, extra_forms=False):
-    """Every restriction of one axis over P: ['pin', p] for each p, ['drop'] (pin at default by
-    None), ['range', a, b] (2-tuple API form, a <= default <= b, a < b), ['triple', a, d, b]
-    for every a <= d <= b over P with a < b (incl. unmoved default and the identity).
-    extra_forms adds ['range', a, b] whose range excludes the default (documented: default is
-    clamped to the nearer end)."""
+    """Every restriction of one axis over P: ['drop'] (pin at default through None), ['pin', p]
+    for each p, ['range', a, b] (2-tuple API form, a <= default <= b, a < b: default kept),
+    ['triple', a, d, b] for every a <= d <= b over P with a < b and d != default (moved
+    default) plus the identity triple.  extra_forms adds ['range', a, b] whose range excludes
+    the default (documented: the default is clamped to the nearer end)."""
     P = axis_points(lo, df, hi)
     out = [["drop"]]
     for p in P:
         out.append(["pin", p])
     for a, b in itertools.combinations(P, 2):
-        if a <= df <= b:
+        if a <= df <= b or extra_forms:
             out.append(["range", a, b])
-        elif extra_forms:
-            out.append(["range", a, b])
+    out.append(["triple", lo, df, hi])
     for a, b in itertools.combinations(P, 2):
         for d in P:
-            if a <= d <= b:
+            if a <= d <= b and d != df:
                 out.append(["triple", a, d, b])
     return out
+
+
+def simple_restrictions(lo, df, hi):
+    return [r for r in axis_restrictions(lo, df, hi) if r[0] != "triple"]
+
+
+def reduced_restrictions(lo, df, hi):
+    """a small representative set: pins at the ends / a mid point / default, one-sided and
+    two-sided ranges, one moved default on each side"""
+    P = axis_points(lo, df, hi)
+    i = P.index(df)
+    out = [["drop"], ["pin", P[0]], ["pin", P[-1]]]
+    mids = [p for p in P if p not in (lo, df, hi)]
+    if mids:
+        out.append(["pin", mids[-1]])
+    if lo < df:
+        out.append(["range", lo, df])
+    if df < hi:
+        out.append(["range", df, hi])
+    if i > 0 and i < len(P) - 1:
+        out.append(["range", P[i - 1], P[i + 1]])
+    if i > 0:
+        out.append(["triple", lo, P[i - 1], hi])
+    if i < len(P) - 1:
+        out.append(["triple", df, P[i + 1], hi])
+    res = []
+    for r in out:
+        if r not in res:
+            res.append(r)
+    return res
 
 
 def restriction_value(r):
@@ -83,15 +112,12 @@ def restriction_triple(r, lo, df, hi):
     return (r[1], r[2], r[3])
 
 
-def is_simple(r, lo, df, hi):
-    """restrictions that are not moved-default triples (used by the quick tier's pair product)"""
-    return r[0] != "triple"
-
-
-def locations(axes, new_triples, quarters=False):
-    """All lattice points of P^axes (user space) inside the new limits.  axes: [(tag, lo, df,
-    hi)] of the ORIGINAL font; new_triples: {tag: (a, d, b)} for restricted axes."""
-    per = []
+def locations(axes, new_triples, quarters=False, dev_axes=()):
+    """Lattice points of P^axes (user space) inside the new limits.  axes: [(tag, lo, df, hi)]
+    of the ORIGINAL font; new_triples: {tag: (a, d, b)} for restricted axes.  Up to 3 axes:
+    the full product.  Beyond: restricted axes take every lattice value (product); untouched
+    axes stay at default, or all go to min / to max, or one of `dev_axes` goes to min or max."""
+    per = {}
     for tag, lo, df, hi in axes:
         P = axis_points(lo, df, hi, quarters)
         if tag in new_triples:
@@ -101,9 +127,32 @@ def locations(axes, new_triples, quarters=False):
                 if v not in pts:
                     pts.append(v)
             P = sorted(pts)
-        per.append([(tag, p) for p in P])
-    for combo in itertools.product(*per):
-        yield dict(combo)
+        per[tag] = P
+    tags = [a[0] for a in axes]
+    if len(axes) <= 3:
+        for combo in itertools.product(*[per[t] for t in tags]):
+            yield dict(zip(tags, combo))
+        return
+    free = [a for a in axes if a[0] not in new_triples]
+    variants = [{a[0]: a[2] for a in free}, {a[0]: a[1] for a in free}, {a[0]: a[3] for a in free}]
+    for t in dev_axes:
+        for a in free:
+            if a[0] == t:
+                for v in (a[1], a[3]):
+                    if v != a[2]:
+                        d = {b[0]: b[2] for b in free}
+                        d[t] = v
+                        variants.append(d)
+    seen = set()
+    rtags = [t for t in tags if t in new_triples]
+    for combo in itertools.product(*[per[t] for t in rtags]):
+        for var in variants:
+            u = dict(var)
+            u.update(zip(rtags, combo))
+            k = tuple(u[t] for t in tags)
+            if k not in seen:
+                seen.add(k)
+                yield {t: u[t] for t in tags}
 
 
 # --------------------------------------------------------------------------- normalisation
@@ -237,6 +286,23 @@ class Observer:
             shape_alphabet = sorted(cmap)[:8]
         self.alphabet = [c for c in shape_alphabet if c in cmap]
         self._gvar_lip = {}
+        self._cff2_lip = None
+        self.slope = avar_max_slope(f)
+        self.avar2 = "avar" in f and getattr(f["avar"], "majorVersion", 1) >= 2
+        self.fv_bounds = fv_boundaries(f)
+        os2, hhea = f.get("OS/2"), f.get("hhea")
+        self.typo_synced = False
+        if os2 is not None and hhea is not None:
+            use_typo = bool(getattr(os2, "fsSelection", 0) & 0x80)
+            synced = [getattr(os2, a, None) for a in ("sTypoAscender", "sTypoDescender", "sTypoLineGap")] == [hhea.ascender, hhea.descender, hhea.lineGap]
+            self.typo_synced = use_typo or synced
+
+    def cff2_lip(self, gn):
+        if self.cff2_info is None:
+            return 0.0
+        if self._cff2_lip is None:
+            self._cff2_lip = cff2_operand_lip(self.font, self.cff2_info)
+        return self._cff2_lip.get(gn, 0.0)
 
     # ---- raw gvar evaluation in floats (points + 4 phantoms), no rounding anywhere
     def raw_points(self, gn, nloc):
@@ -333,8 +399,13 @@ class Observer:
             pen._flush(False)
             rec["ft"] = geom.canon_contours(pen.contours)
             rec["ftw"] = g.width
+            if self.is_cff2:
+                rec["ftraw"] = pen.contours
             if want_hb_outlines:
-                rec["hb"] = self.hb.outline(gid)
+                raw = self.hb.raw_outline(gid)
+                rec["hb"] = geom.canon_contours(raw)
+                if self.is_cff2:
+                    rec["hbraw"] = raw
             rec["hbw"] = self.hb.h_advance(gid)
             if "vmtx" in f:
                 rec["hbv"] = self.hb.v_advance(gid)
@@ -429,17 +500,134 @@ def contour_diff(ca, cb):
     return mx, my
 
 
+def _contour_close_xy(ca, cb, tolx, toly):
+    if ca[0] != cb[0] or len(ca[1]) != len(cb[1]):
+        return False
+    sa, sb = ca[1], cb[1]
+    n = len(sa)
+    for r in (range(n) if ca[0] else (0,)):
+        ok = True
+        for i in range(n):
+            x, y = sa[i], sb[(i + r) % n]
+            if x[0] != y[0] or len(x) != len(y):
+                ok = False
+                break
+            for p, q in zip(x[1:], y[1:]):
+                if abs(p[0] - q[0]) > tolx or abs(p[1] - q[1]) > toly:
+                    ok = False
+                    break
+            if not ok:
+                break
+        if ok:
+            return True
+    return False
+
+
 def outline_close(ca, cb, tolx, toly):
-    """None if equal within (tolx, toly), else message.  Tries the order-preserving comparison
-    first and falls back to the order-insensitive one of oracles.geom (canonical sorting and
-    rotation may differ under rounding noise)."""
+    """None if equal within (tolx, toly), else message.  Order-preserving comparison first
+    (the instancer never reorders points), then an order/rotation-insensitive matching
+    (canonical sorting and rotation can differ under rounding noise)."""
     d = contour_diff(ca, cb)
     if d is not None and d[0] <= tolx and d[1] <= toly:
         return None
-    if tolx == toly or d is None:
-        msg = geom.contours_close(ca, cb, max(tolx, toly))
-        if msg is None:
-            return None
-        if d is None:
-            return msg
-    return "coordinates differ by dx=%.3f dy=%.3f (budget %.3f / %.3f)" % (d[0], d[1], tolx, toly)
+    if len(ca) != len(cb):
+        return "contour count %d vs %d" % (len(ca), len(cb))
+    used = [False] * len(cb)
+    for a in ca:
+        for j, b in enumerate(cb):
+            if not used[j] and _contour_close_xy(a, b, tolx, toly):
+                used[j] = True
+                break
+        else:
+            if d is not None:
+                return "coordinates differ by dx=%.3f dy=%.3f (budget %.3f / %.3f)" % (d[0], d[1], tolx, toly)
+            return "no match within (%.3f, %.3f) for contour %s" % (tolx, toly, repr(geom._round_contour(a))[:240])
+    return None
+
+
+# --------------------------------------------------------------------------- CFF2
+def point_stream(raw):
+    """raw pen contours [(closed, start, segs)] -> flat list of the points the charstring
+    writes, in drawing order (explicit closing lines back to the start are not operands)"""
+    pts = []
+    for _closed, start, segs in raw:
+        c = [tuple(start)] + [tuple(p) for g in segs for p in g[2:]]
+        while len(c) > 1 and c[-1] == c[0]:
+            c.pop()
+        pts.extend(c)
+    return pts
+
+
+def cff_stream_diff(ra, rb):
+    """(max error of a relative move, max over points of absolute error / number of moves so
+    far) or None when the streams have different lengths"""
+    pa, pb = point_stream(ra), point_stream(rb)
+    if len(pa) != len(pb):
+        return None
+    rel = acc = 0.0
+    prev_a = prev_b = (0.0, 0.0)
+    for i, (p, q) in enumerate(zip(pa, pb)):
+        for k in (0, 1):
+            rel = max(rel, abs((p[k] - prev_a[k]) - (q[k] - prev_b[k])))
+            acc = max(acc, abs(p[k] - q[k]) / (i + 1))
+        prev_a, prev_b = p, q
+    return rel, acc
+
+
+def cff2_operand_lip(font, info):
+    """{glyph: Lipschitz bound of one charstring operand w.r.t. the normalised location}: max
+    over blended operands of sum |delta_j| * lip(region_j)"""
+    from fontTools.cffLib.specializer import programToCommands
+
+    top = font["CFF2"].cff.topDictIndex[0]
+    cs_index = top.CharStrings
+    store = info.store
+
+    def nreg(vsindex):
+        return store.VarData[vsindex if vsindex is not None else 0].VarRegionCount
+
+    out = {}
+    for gn in font.getGlyphOrder():
+        cs = cs_index[gn]
+        cs.decompile()
+        vsindex = getattr(cs.private, "vsindex", 0) or 0
+        m = 0.0
+        try:
+            commands = programToCommands(cs.program, getNumRegions=nreg)
+        except Exception:
+            out[gn] = 0.0
+            continue
+        for op, args in commands:
+            if op == "vsindex":
+                vsindex = args[0]
+                continue
+            for arg in args:
+                if isinstance(arg, list):
+                    count = arg[-1]
+                    n = nreg(vsindex)
+                    regs = store.VarData[vsindex].VarRegionIndex
+                    for k in range(count):
+                        deltas = arg[count + k * n: count + (k + 1) * n]
+                        m = max(m, sum(abs(d) * info.lips[ri] for d, ri in zip(deltas, regs)))
+        out[gn] = m
+    return out
+
+
+def fv_boundaries(font):
+    """{axisTag: sorted normalised condition boundaries} of GSUB/GPOS FeatureVariations"""
+    out = {}
+    if "fvar" not in font:
+        return out
+    axes = font["fvar"].axes
+    for tag in ("GSUB", "GPOS"):
+        if tag not in font:
+            continue
+        fv = getattr(font[tag].table, "FeatureVariations", None)
+        if not fv:
+            continue
+        for rec in fv.FeatureVariationRecord:
+            cs = rec.ConditionSet
+            for c in (cs.ConditionTable if cs is not None else []):
+                if c.Format == 1:
+                    out.setdefault(axes[c.AxisIndex].axisTag, set()).update((c.FilterRangeMinValue, c.FilterRangeMaxValue))
+    return {k: sorted(v) for k, v in out.items()}
